@@ -745,15 +745,16 @@ def exhaustive_np(maxlen):
     return out
 
 
-# witnesses of the recorded findings of the configuration / URL side (Props.C16 §5), replayed on the real code in every run
+# witnesses of the OBSERVATIONS O-C16c/d/e of the configuration / URL side (as-built behaviour of static URL generation, outside
+# C16's statement; Props.C16 §5 witnesses), replayed on the real code in every run
 SU_WITNESSES = [
-    # F-C16c: the same local name added again does not replace the registration
+    # O-C16c: the same local name added again does not replace the registration
     {'op': 'su', 'tree': 0, 'adds': [['static', '<PKG>:static'], ['static', '<ROOT>']], 'prefix': None, 'busters': [], 'override': None,
      'asset': '<PKG>:static/file.txt', 'static_path': True, 'script_name': '', 'query': None, 'anchor': None},
-    # F-C16d: a later static view below the URL prefix of an earlier one
+    # O-C16d: a later static view below the URL prefix of an earlier one
     {'op': 'su', 'tree': 0, 'adds': [['a', '<ROOT>'], ['a/b', '<PKG>:static']], 'prefix': None, 'busters': [], 'override': None,
      'asset': '<PKG>:static/file.txt', 'static_path': True, 'script_name': '', 'query': None, 'anchor': None},
-    # F-C16e: a string _query with a query-string cache buster
+    # O-C16e: a string _query with a query-string cache buster
     {'op': 'su', 'tree': 0, 'adds': [['static', '<ROOT>']], 'prefix': None, 'busters': [['<ROOT>', 'q', False, 'x', 'tok', []]], 'override': None,
      'asset': '<ROOT>/file.txt', 'static_path': True, 'script_name': '', 'query': {'str': 'a=1'}, 'anchor': None},
 ]
@@ -888,6 +889,7 @@ def su_impl(case):
             if path.startswith(script):
                 app = cfg.make_wsgi_app()
                 got = {}
+                out['back_path'] = path[len(script):]
                 envb = base_environ(path[len(script):], '', None)
                 envb['SCRIPT_NAME'] = script
                 try:
@@ -943,8 +945,8 @@ def su_oracle(case, got, tree):
         return {'detail': 'configuration failed: %s' % got['err'], 'expected': 'a configuration'}
     eff = su_effective(case)
     hit = [(n, sp) for n, sp in eff if asset.startswith(sp)]
-    # F-C16c's class: the first covering entry of the raw list is a local name that was added again later
-    # (the list as F-C16c leaves it: external names replaced, local names accumulated; a local entry is stale when the same
+    # O-C16c's class: the first covering entry of the raw list is a local name that was added again later
+    # (the list as O-C16c leaves it: external names replaced, local names accumulated; a local entry is stale when the same
     # name was added again after it)
     kept = []
     for i, (n, sp) in enumerate(case['adds']):
@@ -957,8 +959,8 @@ def su_oracle(case, got, tree):
         any(su_norm_name(n) == raw_hits[0][1] for n, _ in case['adds'][raw_hits[0][0] + 1:]) and \
         (not hit or (raw_hits[0][1], raw_hits[0][2]) != hit[0])
     v = su_oracle2(case, got, tree, asset, hit)
-    if v and stale and not v.get('finding'):
-        v['finding'] = 'F-C16c'
+    if v and stale and not v.get('observation'):
+        v['observation'] = 'O-C16c'
     return v
 
 
@@ -982,7 +984,7 @@ def su_oracle2(case, got, tree, asset, hit):
             # a string / None `_query` is a documented argument of route_url; the buster has no documented way to add to it
             if got['url'] is None:
                 return {'detail': 'static_url raised %s for a %s _query with a query-string cache buster' % (got['err'], 'str' if 'str' in q else 'None'),
-                        'expected': 'a URL', 'finding': 'F-C16e'}
+                        'expected': 'a URL', 'observation': 'O-C16e'}
             return None
         if q is not None and q.get('dict') and any(k == buster[1] for k, _ in want_pairs):
             want_pairs = [(k, buster[2] if k == buster[1] else v) for k, v in want_pairs]
@@ -1029,7 +1031,7 @@ def su_oracle2(case, got, tree, asset, hit):
     if not ok:
         v = {'detail': 'the generated URL %r, requested from the same application, answers %s' % (got['url'], json.dumps(back, default=str)[:140].replace(tree.T, '<T>')),
              'expected': {'out': exp, 'path': target.replace(tree.T, '<T>')}}
-        # narrow classes of the recorded findings
+        # narrow class of observation O-C16d
         names = [su_norm_name(n) for n, _ in case['adds']]
         if True:
             mine = pre + '/' + name.lstrip('/')
@@ -1040,7 +1042,7 @@ def su_oracle2(case, got, tree, asset, hit):
                 if not su_is_url(n):
                     earlier.append(pre + '/' + n.lstrip('/'))
             if any(path[len(case.get('script_name', '')):].startswith(e) for e in earlier):
-                v['finding'] = 'F-C16d'
+                v['observation'] = 'O-C16d'
         return v
     return None
 
@@ -1068,10 +1070,61 @@ def su_model_case(case, tree):
             'query': mq, 'anchor': None if case.get('anchor') is None else codes(case['anchor'])}
 
 
+def su_c16_back(case, got, tree):
+    """C16's OWN statement on the way-back request, whatever URL generation did: the static view that receives the request
+    (first route, in route order, whose prefix the path starts with) serves what the normalised remainder designates below ITS
+    root — never a file outside it."""
+    back = got.get('back')
+    if back is None or case.get('override') or 'back_path' not in got:
+        return None
+    pre = ('/' + case['prefix'].strip('/') if case.get('prefix') else '')
+    routes = []                                     # (prefix, root directory); a route added again under the same name moves to the end
+    for name, spec in case['adds']:
+        n = su_norm_name(name)
+        if su_is_url(n):
+            continue
+        pfx = pre + '/' + n.lstrip('/')
+        routes = [r for r in routes if r[0] != pfx] + [(pfx, su_spec_dir(tree, su_expand(tree, su_norm_spec(spec))))]
+    if back['out'] == 'file':
+        roots = [r[1] for r in routes]
+        if back.get('path') is None or not any(back['path'].startswith(r + '/') for r in roots):
+            return {'detail': 'the way-back request was answered with a file outside every static root: %r' % back.get('path'), 'expected': 'never', 'safety': True}
+    try:
+        text = got['back_path'].encode('latin-1').decode('utf-8')
+    except UnicodeError:
+        return None if back['out'] in ('urldecode', 'notfound') else {'detail': 'undecodable way-back path answered %s' % back['out'], 'expected': 'urldecode'}
+    hit = [r for r in routes if text.startswith(r[0])]
+    if not hit:
+        exp, target = 'notfound', None
+    else:
+        pfx, root = hit[0]
+        segs = normalise(text[len(pfx):])
+        if not all(proper(x) for x in segs):
+            exp, target = 'notfound', None
+        else:
+            d = root + ''.join('/' + x for x in segs)
+            if tree.isdir(d):
+                target = d + '/' + INDEX
+                exp = 'redirect' if not text.endswith('/') else 'file' if tree.isfile(target) else 'notfound'
+            else:
+                target = d
+                exp = 'file' if tree.isfile(d) else 'notfound'
+    if back['out'] != exp or (exp == 'file' and back.get('path') != target):
+        return {'detail': 'way-back request %r answered %s' % (text, json.dumps(back, default=str)[:140]),
+                'expected': {'out': exp, 'path': target if exp == 'file' else None}}
+    return None
+
+
 def su_check(case, reply=None):
     tree = get_tree(case['tree'])
     got = su_impl(case)
-    v = su_oracle(case, got, tree)
+    v = su_c16_back(case, got, tree)                # a genuine C16 violation first
+    if v is None:
+        v = su_oracle(case, got, tree)
+        if v and v.get('observation'):
+            # as-built behaviour of static URL generation that C16's statement does not speak about: counted, not reported
+            got['observation'] = v['observation']
+            v = None
     if v:
         v.update({'case': case, 'impl': got})
         v = json.loads(json.dumps(v, default=str).replace(tree.T, '<T>').replace(tree.pkgname, '<PKG>'))
@@ -1245,7 +1298,7 @@ def _run(ctx, rng):
     dist = {'mount': {}, 'kind': {}, 'outcome': {}, 'outcome_by_mount': {}, 'pieces': {}, 'accept_encoding': {}, 'served_encoding': {},
             'content_encodings': {}, 'attack_pieces': {}, 'names_outside_root': 0, 'tuple_refused_by_secure_path': 0,
             'aux': {}, 'exhaustive_scope': {}, 'regression_witnesses': {}, 'static_url': {'answer': {}, 'registrations': {}, 'busters': {}, 'way_back': {},
-                                                                                     'same_name_again': 0, 'boundary_sibling': 0, 'query': {}, 'known_finding_cases': {}},
+                                                                                     'same_name_again': 0, 'boundary_sibling': 0, 'query': {}, 'observations': {}},
 'lean_spec_equals_model': 0, 'lean_spec_differs': 0,
             'trees': {str(t): len(get_tree(t).entries) for t in trees}, 'nontrivial_by_kind': {}}
     known_seen = {}
@@ -1271,8 +1324,8 @@ def _run(ctx, rng):
             d['same_name_again'] += len(set(names)) < len(names)
             d['boundary_sibling'] += not any(c['asset'].startswith(su_norm_spec(sp)) for _, sp in c['adds']) and any(c['asset'].startswith(su_norm_spec(sp).rstrip('/')) for _, sp in c['adds'])
             bump(d['query'], 'absent' if c.get('query') is None else 'dict' if c['query'].get('dict') else 'pairs' if 'pairs' in c['query'] else 'str/None')
-            if v and v.get('finding'):
-                bump(d['known_finding_cases'], v['finding'])
+            if got.get('observation'):
+                bump(d['observations'], got['observation'])
             bump(dist['aux'], 'su')
             continue
         if 'op' in c:
@@ -1314,6 +1367,12 @@ def _run(ctx, rng):
         bump(dist['regression_witnesses'], impl(w)['out'])
     notes = ['regression witness %s -> impl %s' % (json.dumps(w['pieces']), json.dumps(canon_impl(impl(w)), default=str)[:160].replace(get_tree(0).T, '<T>'))
              for w in WITNESSES]
+    OBS = {'O-C16c': 'add_static_view with a local name that is already registered keeps the earlier registration (the name is compared with the URL column): static_url of the old spec still answers, through the re-bound route',
+           'O-C16d': 'a static view mounted below the URL prefix of an earlier one: the generated URL is matched by the earlier route',
+           'O-C16e': 'a str / None _query with a query-string cache buster raises (tuple(query)); a dict _query is mutated in place'}
+    for k in sorted(OBS):
+        notes.append('observation %s seen %d times (as-built behaviour of static URL generation, outside the property statement): %s'
+                     % (k, dist['static_url']['observations'].get(k, 0), OBS[k]))
     if dropped:
         notes.append('%d further (functional) violations not listed: a file outside the root was served' % dropped)
     samples = [c for c in cases if 'op' not in c][len(corpus):len(corpus) + 4] + cases[-2:]
